@@ -200,7 +200,9 @@ class Token(PyModel):
     def m_length(self, it):
         return self.length
 
-def sto_stub(kind):
+STO_RANGE = {'std::stoi': (-2**31, 2**31 - 1), 'std::stol': (-2**63, 2**63 - 1), 'std::stoll': (-2**63, 2**63 - 1), 'std::stoul': (0, 2**64 - 1), 'std::stoull': (0, 2**64 - 1)}
+
+def sto_stub(kind, fn=None):
     def stub(it, args, this):
         tok = args[0]
         if not isinstance(tok, Token):
@@ -208,7 +210,13 @@ def sto_stub(kind):
         it.sym.parsed = True
         if it.decide(tok.consumed == 0):
             raise Thrown('std::invalid_argument', 'no conversion')
-        if not it.decide(tok.in_range):
+        if kind == 'i' and fn in STO_RANGE:
+            # documented: std::sto{i,l,ll,ul,ull} throw std::out_of_range iff the value does not fit THEIR return type
+            lo, hi = STO_RANGE[fn]
+            V = z3.ToInt(tok.value)
+            if not it.decide(z3.And(V >= lo, V <= hi)):
+                raise Thrown('std::out_of_range', 'out of range')
+        elif not it.decide(tok.in_range):
             raise Thrown('std::out_of_range', 'out of range')
         if len(args) > 1 and args[1] is not None:
             tgt = args[1]
@@ -233,12 +241,19 @@ def replay_token(model, wd):
         outs.append('tan(beta) token %r -> exit %d, %s' % (spelling, r.returncode, head.strip()))
         if spelling != '10' and r.returncode == 0:
             bad = True
+    # an integer KEY outside the range of int (it would alias key 1 = loop order when wrapped to 32 bits) must be rejected as well
+    for key in ('4294967297', '-4294967295', '99999999999'):
+        inp = base + '\nBlock GM2CalcConfig\n   %s   0\n' % key
+        r = subprocess.run([exe, '--gm2calc-input-file=-'], input=inp, capture_output=True, text=True, timeout=120)
+        outs.append('GM2CalcConfig key %s -> exit %d' % (key, r.returncode))
+        if r.returncode == 0:
+            bad = True
     return bad, ' | '.join(outs)
 
 @obligation('C13.convert_to.whole_token', fns=[(IOH, 'GM2_slha_io::convert_to')], replay=replay_token)
 def _(ctx):
-    """ensures: convert_to<double/int/long>(token) returns normally only if std::sto* consumed the WHOLE token and the value is in range
-    (hence finite); every other token (no numeric prefix, trailing characters such as `1.0D+01` or `10xyz`, overflow) throws EReadError
+    """ensures: convert_to<double/int/long>(token) returns normally only if std::sto* consumed the WHOLE token and the value is in range of the REQUESTED
+    type (hence finite; for the integer types the value returned is the token's value, not a wider intermediate wrapped to 32 bits); every other token (no numeric prefix, trailing characters such as `1.0D+01` or `10xyz`, overflow) throws EReadError
     [std::stod/stoi/stol by contract: longest-prefix parse reported through the pos argument, invalid_argument / out_of_range]"""
     fd = ctx.w.find('GM2_slha_io::convert_to', IOH)[0]
     from gm2v.cxx import Type
@@ -252,7 +267,8 @@ def _(ctx):
         for nm in ('std::stod', 'std::stof', 'std::stold'):
             it.stubs[nm] = sto_stub('f')
         for nm in ('std::stoi', 'std::stol', 'std::stoll', 'std::stoul', 'std::stoull'):
-            it.stubs[nm] = sto_stub('i')
+            it.stubs[nm] = sto_stub('i', nm)
+        it.int_narrowing = True
         tok = Token(length, consumed, val, inr)
         ps = it.run_paths(lambda: it.invoke(fd, [tok], None, targs=[Type(tname, None, False, False, 0)]))
         ctx.merge_rules(it)
@@ -263,8 +279,15 @@ def _(ctx):
                 ctx.record(tag + '.class', PROVED if exc.cls == 'EReadError' else FAILED, 'B', 0, 'rejects with %s' % exc.cls)
             else:
                 n_ok += 1
-                ctx.prove(tag + '.whole_token', pre + sym.pc, z3.And(consumed == length, inr), check_vacuity=False,
-                          pins=[{'length': 7, 'consumed': 3}])
+                if kind == 'f':
+                    claim = z3.And(consumed == length, inr)
+                else:
+                    # the value returned IS the token's value and fits the requested type (no silent wrap-around of a wider intermediate)
+                    lo, hi = (-2**31, 2**31 - 1) if tname == 'int' else (-2**63, 2**63 - 1)
+                    V = z3.ToInt(val)
+                    claim = z3.And(consumed == length, V >= lo, V <= hi, to_z3(r) == V if is_sym(r) else z3.BoolVal(False))
+                ctx.prove(tag + '.whole_token', pre + sym.pc, claim, check_vacuity=False,
+                          pins=[{'length': 7, 'consumed': 3}], model_vars={'parsed_value': val})
         ctx.record(tname + '.has_accepting_path', PROVED if n_ok >= 1 else ERROR, 'B', 0, '%d accepting paths of %d' % (n_ok, len(ps)))
 
 # ---------------------------------------------------------------------------------------------------
